@@ -313,9 +313,16 @@ Definition hsort (l : list (N * N)) : list (N * N) := fold_left (fun acc e => in
 (* a height is pruned when some prune-up-to request at or above it is in the history *)
 Definition covered (l : list rec) (h : N) : bool :=
   existsb (fun r => match r with RPrune p => h <=? p | _ => false end) l.
+(* the largest prune request, None when nothing was ever pruned (height 0 is then still live) *)
+Definition prune_bound (l : list rec) : option N :=
+  fold_left (fun a r => match r with
+                        | RPrune h => Some (match a with Some x => N.max x h | None => h end)
+                        | _ => a end) l None.
+Definition is_live (b : option N) (h : N) : bool := match b with None => true | Some p => p <? h end.
 (* entries of unpruned heights, by height then append order *)
 Definition live (l : list rec) : list (N * N) :=
-  hsort (filter (fun e => negb (covered l (fst e))) (entries l)).
+  let b := prune_bound l in
+  hsort (filter (fun e => is_live b (fst e)) (entries l)).
 (* the same with "pruned" = at or below the largest prune height (differs only for height 0 in a
    history without prune requests) *)
 Definition live' (l : list rec) : list (N * N) :=
@@ -335,7 +342,7 @@ Definition recover_ok (ack infl : list rec) (obs : option (list (N * N))) : bool
   | Some l => eq_ents l (live ack) || eq_ents l (live (ack ++ infl))
   end.
 Definition no_revive_ok (ack : list rec) (obs : list (N * N)) : bool :=
-  forallb (fun e => negb (covered ack (fst e))) obs.
+  let b := prune_bound ack in forallb (fun e => is_live b (fst e)) obs.
 
 Definition reopen_obs (d : disk) : option (list (N * N)) :=
   match open d with Some (_, m) => Some (load m) | None => None end.
